@@ -93,6 +93,51 @@ func endingToTxtSlice(c *zlexer, errstr string) ([]string, *ParseError) {
 	return s, nil
 }
 
+// endingToOctetString reads the single character-string that ends a record whose last
+// field takes the rest of the RDATA (URI Target, CAA Value). Unlike the strings of a TXT
+// record it may be longer than 255 octets, so it is not cut into chunks.
+func endingToOctetString(c *zlexer, errstr string) (string, *ParseError) {
+	l, _ := c.Next()
+	if l.err {
+		return "", &ParseError{err: errstr, lex: l}
+	}
+
+	s, seen, quote := "", false, false
+	for l.value != zNewline && l.value != zEOF {
+		if l.err {
+			return "", &ParseError{err: errstr, lex: l}
+		}
+		switch l.value {
+		case zString:
+			if seen {
+				return "", &ParseError{err: errstr, lex: l}
+			}
+			s, seen = l.token, true
+		case zBlank:
+			if quote {
+				// zBlank can only be seen after the string.
+				return "", &ParseError{err: errstr, lex: l}
+			}
+		case zQuote:
+			if quote && !seen {
+				seen = true // the empty string
+			}
+			quote = !quote
+		default:
+			return "", &ParseError{err: errstr, lex: l}
+		}
+		l, _ = c.Next()
+	}
+
+	if quote || !seen {
+		return "", &ParseError{err: errstr, lex: l}
+	}
+	if _, ok := escapedStringOffset(s, len(s)+1); !ok {
+		return "", &ParseError{err: errstr, lex: l}
+	}
+	return s, nil
+}
+
 func (rr *A) parse(c *zlexer, o string) *ParseError {
 	l, _ := c.Next()
 	rr.A = net.ParseIP(l.token)
@@ -1646,14 +1691,11 @@ func (rr *URI) parse(c *zlexer, o string) *ParseError {
 	rr.Weight = uint16(i)
 
 	c.Next() // zBlank
-	s, e2 := endingToTxtSlice(c, "bad URI Target")
+	s, e2 := endingToOctetString(c, "bad URI Target")
 	if e2 != nil {
 		return e2
 	}
-	if len(s) != 1 {
-		return &ParseError{err: "bad URI Target", lex: l}
-	}
-	rr.Target = s[0]
+	rr.Target = s
 	return nil
 }
 
@@ -1812,14 +1854,11 @@ func (rr *CAA) parse(c *zlexer, o string) *ParseError {
 	rr.Tag = l.token
 
 	c.Next() // zBlank
-	s, e1 := endingToTxtSlice(c, "bad CAA Value")
+	s, e1 := endingToOctetString(c, "bad CAA Value")
 	if e1 != nil {
 		return e1
 	}
-	if len(s) != 1 {
-		return &ParseError{err: "bad CAA Value", lex: l}
-	}
-	rr.Value = s[0]
+	rr.Value = s
 	return nil
 }
 
